@@ -1,33 +1,65 @@
 (* LieSpec.v — the short specification layer: what it means for a GroupOps
    record (over the reals) to realise a matrix group through transform().
-   Every field is a statement about the *model's* functions and the generic
-   matrix product / identity of Mat.v. *)
+   GroupCore is what is proved per group; GroupLaws (the statement of C01) is
+   derived from it once, generically. Every field is a statement about the
+   *model's* functions and the generic matrix product / identity of Mat.v. *)
 From Coq Require Import Reals List.
 From Manif Require Import Scalar Mat Group RInst Generic.
 Import ListNotations.
 Local Open Scope R_scope.
 
-Record GroupLaws (G : GroupOps RS) : Type := mkLaws {
-  gl_valid : list R -> Prop;             (* right length and unit-norm rotation part *)
-  gl_hom : list R -> list R;             (* a point in the homogeneous coordinates act() documents *)
-  gl_compose_valid : forall X Y, gl_valid X -> gl_valid Y -> gl_valid (g_compose G X Y);
-  gl_inverse_valid : forall X, gl_valid X -> gl_valid (g_inverse G X);
-  gl_identity_valid : gl_valid (g_identity G);
-  gl_compose_M : forall X Y, gl_valid X -> gl_valid Y ->
+Record GroupCore (G : GroupOps RS) : Type := mkCore {
+  gc_valid : list R -> Prop;             (* right length and unit-norm rotation part *)
+  gc_hom : list R -> list R;             (* a point in the homogeneous coordinates act() documents *)
+  gc_compose_valid : forall X Y, gc_valid X -> gc_valid Y -> gc_valid (g_compose G X Y);
+  gc_inverse_valid : forall X, gc_valid X -> gc_valid (g_inverse G X);
+  gc_identity_valid : gc_valid (g_identity G);
+  gc_compose_M : forall X Y, gc_valid X -> gc_valid Y ->
      g_transform G (g_compose G X Y) = mmul (g_transform G X) (g_transform G Y);
-  gl_inverse_Ml : forall X, gl_valid X ->
-     mmul (g_transform G (g_inverse G X)) (g_transform G X) = mid (g_tra G);
-  gl_inverse_Mr : forall X, gl_valid X ->
-     mmul (g_transform G X) (g_transform G (g_inverse G X)) = mid (g_tra G);
-  gl_identity_M : g_transform G (g_identity G) = mid (g_tra G);
-  gl_act_M : forall X p, gl_valid X -> length p = g_actdim G ->
-     gl_hom (g_act G X p) = mvmul (g_transform G X) (gl_hom p);
-  (* consequences, on coefficient vectors *)
-  gl_assoc : forall X Y Z, gl_valid X -> gl_valid Y -> gl_valid Z ->
+  gc_identity_M : g_transform G (g_identity G) = mid (g_tra G);
+  gc_act_M : forall X p, gc_valid X -> length p = g_actdim G ->
+     gc_hom (g_act G X p) = mvmul (g_transform G X) (gc_hom p);
+  (* on coefficient vectors *)
+  gc_assoc : forall X Y Z, gc_valid X -> gc_valid Y -> gc_valid Z ->
      g_compose G (g_compose G X Y) Z = g_compose G X (g_compose G Y Z);
-  gl_neutral_l : forall X, gl_valid X -> g_compose G (g_identity G) X = X;
-  gl_neutral_r : forall X, gl_valid X -> g_compose G X (g_identity G) = X;
-  gl_inv_l : forall X, gl_valid X -> g_transform G (g_compose G (g_inverse G X) X) = mid (g_tra G);
-  gl_inv_r : forall X, gl_valid X -> g_transform G (g_compose G X (g_inverse G X)) = mid (g_tra G)
+  gc_neutral_l : forall X, gc_valid X -> g_compose G (g_identity G) X = X;
+  gc_neutral_r : forall X, gc_valid X -> g_compose G X (g_identity G) = X;
+  gc_inv_l : forall X, gc_valid X -> g_compose G (g_inverse G X) X = g_identity G;
+  gc_inv_r : forall X, gc_valid X -> g_compose G X (g_inverse G X) = g_identity G
 }.
-Arguments gl_valid {G}. Arguments gl_hom {G}.
+Arguments gc_valid {G}. Arguments gc_hom {G}.
+
+(* the statement of property C01 for one group *)
+Record GroupLaws (G : GroupOps RS) (valid : list R -> Prop) (hom : list R -> list R) : Prop := mkLaws {
+  gl_compose_valid : forall X Y, valid X -> valid Y -> valid (g_compose G X Y);
+  gl_inverse_valid : forall X, valid X -> valid (g_inverse G X);
+  gl_identity_valid : valid (g_identity G);
+  (* the matrix of compose is the product of the matrices *)
+  gl_compose_M : forall X Y, valid X -> valid Y ->
+     g_transform G (g_compose G X Y) = mmul (g_transform G X) (g_transform G Y);
+  (* the matrix of inverse is the (two-sided) matrix inverse *)
+  gl_inverse_Ml : forall X, valid X ->
+     mmul (g_transform G (g_inverse G X)) (g_transform G X) = mid (g_tra G);
+  gl_inverse_Mr : forall X, valid X ->
+     mmul (g_transform G X) (g_transform G (g_inverse G X)) = mid (g_tra G);
+  (* Identity() is the identity matrix *)
+  gl_identity_M : g_transform G (g_identity G) = mid (g_tra G);
+  (* act is the matrix applied to the homogeneous point *)
+  gl_act_M : forall X p, valid X -> length p = g_actdim G ->
+     hom (g_act G X p) = mvmul (g_transform G X) (hom p);
+  (* hence: associativity, neutrality, two-sided inverse (on coefficient vectors) *)
+  gl_assoc : forall X Y Z, valid X -> valid Y -> valid Z ->
+     g_compose G (g_compose G X Y) Z = g_compose G X (g_compose G Y Z);
+  gl_neutral_l : forall X, valid X -> g_compose G (g_identity G) X = X;
+  gl_neutral_r : forall X, valid X -> g_compose G X (g_identity G) = X;
+  gl_inv_l : forall X, valid X -> g_compose G (g_inverse G X) X = g_identity G;
+  gl_inv_r : forall X, valid X -> g_compose G X (g_inverse G X) = g_identity G
+}.
+
+Lemma laws_of_core (G : GroupOps RS) (C : GroupCore G) : GroupLaws G (gc_valid C) (gc_hom C).
+Proof.
+  destruct C as [valid hom cv iv idv cM iM aM asc nl nr il ir]; cbn [gc_valid gc_hom].
+  constructor; auto.
+  - intros X HX. rewrite <- cM by auto. rewrite il by auto. exact iM.
+  - intros X HX. rewrite <- cM by auto. rewrite ir by auto. exact iM.
+Qed.
